@@ -47,6 +47,14 @@ Lemma evalT_EZ r z : evalT r (EZ z) = inject_Z z.
 Proof. reflexivity. Qed.
 Lemma evalT_ENum r q : evalT r (ENum q) = q.
 Proof. reflexivity. Qed.
+Lemma evalT_eneg r a : evalT r (eneg a) = - evalT r a.
+Proof. reflexivity. Qed.
+
+(* push evalT through whatever arithmetic shape the generated formula has, so
+   that harmless rewrites of the Python formula do not break the proofs *)
+Ltac evalT_norm :=
+  repeat first [ rewrite evalT_emul | rewrite evalT_eadd | rewrite evalT_esub | rewrite evalT_ediv
+               | rewrite evalT_EZ | rewrite evalT_ENum | rewrite evalT_eneg ].
 
 Lemma is_int_ofn n : is_int (ofn n) = true.
 Proof. apply is_int_inject. Qed.
@@ -77,7 +85,7 @@ Theorem const_sum_correct r m e cnt n :
             evalT r g == sumn n (fun _ => evalT r m * evalT r e).
 Proof.
   intro Hc. eexists. split; [reflexivity|].
-  rewrite !evalT_emul, Hc. clear Hc.
+  evalT_norm. rewrite Hc. clear Hc.
   induction n as [|n IH]; cbn [sumn].
   - unfold ofn; cbn. ring.
   - rewrite <- IH, ofn_S. ring.
@@ -121,7 +129,7 @@ Theorem arith_sum_correct r a d e cnt n :
             evalT r g == sumn n (fun i => (evalT r a + ofn i * evalT r d) * evalT r e).
 Proof.
   intro Hc. eexists. split; [reflexivity|].
-  rewrite !evalT_emul, evalT_eadd, !evalT_emul, evalT_esub, evalT_ENum, !evalT_EZ, Hc. clear Hc.
+  evalT_norm. rewrite Hc. clear Hc.
   induction n as [|n IH]; cbn [sumn].
   - unfold ofn; cbn. ring.
   - rewrite <- IH, ofn_S. field.
@@ -135,8 +143,7 @@ Theorem geom_sum_correct r q e cnt n :
             evalT r g == sumn n (fun i => Qpower (evalT r q) (Z.of_nat i) * evalT r e).
 Proof.
   intros Hc Hq. eexists. split; [reflexivity|].
-  rewrite evalT_ediv, evalT_emul, !evalT_esub, evalT_epow, !evalT_EZ.
-  rewrite (Qpow_std_nat _ _ _ Hc). clear Hc.
+  evalT_norm. rewrite evalT_epow, (Qpow_std_nat _ _ _ Hc). clear Hc.
   set (Q0 := evalT r q) in *. set (E0 := evalT r e).
   assert (Hne : ~ inject_Z 1 - Q0 == 0).
   { intro H. apply Hq. setoid_replace Q0 with (inject_Z 1 - (inject_Z 1 - Q0)) by ring. rewrite H. reflexivity. }
